@@ -17,11 +17,11 @@ import (
 // C18: overlay filesystem. Layers are fstest.MapFS; the model receives, per layer,
 // the table of what that layer itself answers on the queried universe.
 
-type c18Shape struct{ a, x, d, e int }
+type c18Shape struct{ a, x, d, e, b int }
 
-var c18Opens = []string{"a", "x", "d", "d/x", "d/y", "d/y/w", "d-", "d-/x", ".", "zz"}
-var c18Dirs = []string{".", "a", "d", "d-", "d/y", "zz"}
-var c18Globs = []string{"*", "d/*", "*/*", "*/x", "a", "?", "[", "d-/x", "d*/x*", "*/*/*"}
+var c18Opens = []string{"a", "x", "d", "d/x", "d/y", "d/y/w", "d-", "d-/x", ".", "zz", "big", "big/n03", "big/n04", "big/n15"}
+var c18Dirs = []string{".", "a", "d", "d-", "d/y", "zz", "big", "big/n04"}
+var c18Globs = []string{"*", "d/*", "*/*", "*/x", "a", "?", "[", "d-/x", "d*/x*", "*/*/*", "big/*", "big/n0?"}
 
 func c18Layer(idx int, sh c18Shape) fstest.MapFS {
 	m := fstest.MapFS{}
@@ -54,6 +54,22 @@ func c18Layer(idx int, sh c18Shape) fstest.MapFS {
 	}
 	if sh.e == 1 {
 		file("d-/x")
+	}
+	// a directory with many entries (listings long enough for any sorting strategy), the same names being files in
+	// one shape and partly directories in the other
+	switch sh.b {
+	case 1:
+		for i := 0; i < 14; i++ {
+			file(fmt.Sprintf("big/n%02d", i))
+		}
+	case 2:
+		for i := 0; i < 17; i++ {
+			if i%2 == 0 {
+				dir(fmt.Sprintf("big/n%02d", i))
+			} else {
+				file(fmt.Sprintf("big/n%02d", i))
+			}
+		}
 	}
 	return m
 }
@@ -185,7 +201,7 @@ func c18Observe(ov fs.FS, qs []c18Q) Obs {
 func init() { streams["C18"] = runC18 }
 
 func runC18(r *Run) {
-	r.Rule("stacks of 1..3 layers (nil layers included) over 72 layer shapes: a∈{absent,file,emptydir} × x∈{absent,file} × d∈{absent,file,emptydir,{x},{x,y},{y/w}} × d-∈{absent,{x}}; " +
+	r.Rule("stacks of 1..3 layers (nil layers included) over 80 layer shapes (72 small ones, 8 with a directory of 14-17 entries whose names are files in one and partly directories in the other): a∈{absent,file,emptydir} × x∈{absent,file} × d∈{absent,file,emptydir,{x},{x,y},{y/w}} × d-∈{absent,{x}}; " +
 		"every stack is one overlay instance queried with a random permutation (plus repeats) of 10 Open/Stat/ReadFile names, 6 ReadDir names and 10 glob patterns, so order- and history-dependence show; " +
 		"a case is non-trivial when some path is present in ≥2 layers or a nil layer is present")
 	var shapes []c18Shape
@@ -193,9 +209,14 @@ func runC18(r *Run) {
 		for x := 0; x < 2; x++ {
 			for d := 0; d < 6; d++ {
 				for e := 0; e < 2; e++ {
-					shapes = append(shapes, c18Shape{a, x, d, e})
+					shapes = append(shapes, c18Shape{a, x, d, e, 0})
 				}
 			}
+		}
+	}
+	for _, b := range []int{1, 2} {
+		for _, d := range []int{0, 3} {
+			shapes = append(shapes, c18Shape{0, 0, d, 0, b}, c18Shape{1, 1, d, 1, b})
 		}
 	}
 	nShapes := len(shapes) // index nShapes = nil layer
@@ -410,6 +431,14 @@ func runC18(r *Run) {
 			emit([]int{r.Rng.Intn(nShapes + 1), r.Rng.Intn(nShapes + 1), r.Rng.Intn(nShapes + 1)})
 		}
 		emit([]int{nShapes, nShapes})
+		for n := 0; n < 120; n++ { // stacks in which the long directory is present in two or three layers
+			big := func() int { return nShapes - 8 + r.Rng.Intn(8) }
+			if n%2 == 0 {
+				emit([]int{big(), big()})
+			} else {
+				emit([]int{big(), r.Rng.Intn(nShapes + 1), big()})
+			}
+		}
 	}
 	r.Assume("each layer is an fstest.MapFS or the same tree on disk served by os.DirFS; the model takes each layer's own answers on the queried universe as given")
 }
